@@ -12,9 +12,10 @@
 
 using wl::Cell;
 
-enum { OP_DETACH = 0, OP_ASYNC_RET, OP_ASYNC_VOID, OP_ASYNC_THROW, OP_READ, OP_LOAD, OP_DETACH_THROW };
+enum { OP_DETACH = 0, OP_ASYNC_RET, OP_ASYNC_VOID, OP_ASYNC_THROW, OP_READ, OP_LOAD, OP_DETACH_THROW, OP_ASYNC_VOID_THROW };
 static const char* const OPN[] = {"modify_detach", "modify_async_ret", "modify_async_void",
-                                  "modify_async_throw", "read", "load", "modify_detach_throw"};
+                                  "modify_async_throw", "read", "load", "modify_detach_throw",
+                                  "modify_async_void_throw"};
 
 namespace {
 struct Sub {
@@ -81,6 +82,15 @@ struct FnRet {
         c.rmw_add(1, hold);
         on_exec(id);
         return 10L * id;
+    }
+};
+struct FnVoidThrow {
+    int id;
+    void operator()(Cell& c) const
+    {
+        c.rmw_add(1, 0);
+        on_exec(id);
+        throw gsim::injected{41, id};
     }
 };
 struct FnThrow {
@@ -153,6 +163,14 @@ struct WL {
             case OP_ASYNC_VOID: {
                 begin_submit(id, op.code);
                 auto f = dg->modify_async(Fn{id, op.a});
+                end_submit(id);
+                gsim::Oracle o;
+                S->futs_void.emplace_back(id, std::move(f));
+                break;
+            }
+            case OP_ASYNC_VOID_THROW: {
+                begin_submit(id, op.code);
+                auto f = dg->modify_async(FnVoidThrow{id});
                 end_submit(id);
                 gsim::Oracle o;
                 S->futs_void.emplace_back(id, std::move(f));
@@ -246,10 +264,11 @@ struct WL {
                     bool submit = role == 0 || (role == 2 && gsim::gen_int(2));
                     if (submit) {
                         static const int pool[] = {OP_DETACH, OP_DETACH, OP_DETACH, OP_ASYNC_RET,
-                                                   OP_ASYNC_VOID, OP_ASYNC_THROW, OP_DETACH_THROW,
+                                                   OP_ASYNC_VOID, OP_ASYNC_THROW,
+                                                   OP_ASYNC_VOID_THROW, OP_DETACH_THROW,
                                                    OP_DETACH_THROW};
                         bool thr = !strcmp(gsim::param("mode", "std"), "throw");
-                        gsim::prog_add(t, {pool[gsim::gen_int(thr ? 8 : 6)], gsim::gen_int(3) == 0 ? 1 : 0, 0, 0});
+                        gsim::prog_add(t, {pool[gsim::gen_int(thr ? 9 : 7)], gsim::gen_int(3) == 0 ? 1 : 0, 0, 0});
                     } else {
                         gsim::prog_add(t, {gsim::gen_int(6) == 0 ? OP_LOAD : OP_READ,
                                            gsim::gen_int(4), gsim::gen_int(4), 0});
@@ -313,7 +332,22 @@ struct WL {
             if (pf.second.wait_for(std::chrono::seconds(0)) != std::future_status::ready)
                 gsim::fail("future_not_ready", "the future of function #%d is not ready after "
                            "quiescence", pf.first);
-            pf.second.get();
+            bool thrower;
+            {
+                gsim::Oracle o;
+                thrower = sub(pf.first).kind == OP_ASYNC_VOID_THROW;
+            }
+            try {
+                pf.second.get();
+                if (thrower)
+                    gsim::fail("future_wrong", "future of throwing void function #%d holds no "
+                               "exception", pf.first);
+            }
+            catch (const gsim::injected& e) {
+                if (!thrower || e.ordinal != pf.first)
+                    gsim::fail("future_wrong", "future of void function #%d holds an unexpected "
+                               "exception", pf.first);
+            }
         }
         {
             gsim::Oracle o;
